@@ -493,10 +493,10 @@ class _MatcherModel:
 
     def word(self, e, ienv):
         """(lo, hi) of a word expression"""
-        if isinstance(e, ast.Name) and e.id == self.w:
-            return (0, self.n)
         if isinstance(e, ast.Name) and isinstance(self.env.get(e.id), tuple) and self.env[e.id][0] == 'word':
             return self.env[e.id][1]
+        if isinstance(e, ast.Name) and e.id == self.w:
+            return (0, self.n)
         if isinstance(e, ast.Subscript) and isinstance(e.slice, ast.Slice) and e.slice.step is None:
             lo0, hi0 = self.word(e.value, ienv)
             lo = self.int(e.slice.lower, ienv) if e.slice.lower is not None else 0
@@ -545,7 +545,8 @@ class _MatcherModel:
             if e.id in self.env and not isinstance(self.env[e.id], tuple):
                 return self.env[e.id]
             if e.id == self.w:
-                return self.n > 0          # truthiness of the word
+                lo, hi = self.word(e, ienv)
+                return hi > lo             # truthiness of the word
             raise Unsupported('name ' + e.id)
         if isinstance(e, ast.UnaryOp) and isinstance(e.op, ast.Not):
             return not self.val(e.operand, ienv)
@@ -628,6 +629,55 @@ class _MatcherModel:
                 return ('raise', None)
             if isinstance(st, ast.Pass):
                 continue
+            if isinstance(st, ast.Break):
+                return ('break', None)
+            if isinstance(st, ast.Continue):
+                return ('continue', None)
+            if isinstance(st, ast.AugAssign) and isinstance(st.target, ast.Name) and isinstance(st.op, (ast.BitOr, ast.BitAnd)):
+                cur = self.env.get(st.target.id)
+                v = self.val(st.value, {})
+                if isinstance(cur, tuple):
+                    raise Unsupported('update of ' + st.target.id)
+                self.env[st.target.id] = (bool(cur) or bool(v)) if isinstance(st.op, ast.BitOr) else (bool(cur) and bool(v))
+                continue
+            if isinstance(st, ast.For) and isinstance(st.target, ast.Name) and isinstance(st.iter, ast.Call) and isinstance(st.iter.func, ast.Name) \
+                    and st.iter.func.id == 'range' and 1 <= len(st.iter.args) <= 3 and not st.iter.keywords:
+                # an explicit loop over the split points
+                args = [self.int(a, {}) for a in st.iter.args]
+                broke = False
+                for k in range(*args):
+                    self.env[st.target.id] = k
+                    r = self.run(st.body)
+                    if r is None or r[0] == 'continue':
+                        continue
+                    if r[0] == 'break':
+                        broke = True
+                        break
+                    return r
+                if not broke and st.orelse:
+                    r = self.run(st.orelse)
+                    if r is not None:
+                        return r
+                continue
+            if isinstance(st, ast.While):
+                broke = False
+                for _ in range(4 * self.n + 8):
+                    if not self.val(st.test, {}):
+                        break
+                    r = self.run(st.body)
+                    if r is None or r[0] == 'continue':
+                        continue
+                    if r[0] == 'break':
+                        broke = True
+                        break
+                    return r
+                else:
+                    raise Unsupported('loop does not end within the model')
+                if not broke and st.orelse:
+                    r = self.run(st.orelse)
+                    if r is not None:
+                        return r
+                continue
             raise Unsupported('statement ' + type(st).__name__)
         return None
 
@@ -645,7 +695,16 @@ def _matcher_spec(K, n, get):
     if K == 'Concat':
         return any(get(('M', 'left', 0, k)) and get(('M', 'right', k, n)) for k in range(0, n + 1))
     if K == 'Iteration':
-        return n == 0 or any(get(('M', 'operand', 0, k)) and get(('M', 'self', k, n)) for k in range(1, n + 1))
+        consulted = getattr(get, 'consulted', None)
+
+        def star(lo):
+            # M(r*, w[lo:n]): the value the body was given when it asked for it, else the denotational unfolding
+            if lo == n:
+                return True if consulted is None or ('M', 'self', lo, n) not in consulted else get(('M', 'self', lo, n))
+            if consulted is None or ('M', 'self', lo, n) in consulted:
+                return get(('M', 'self', lo, n))
+            return any(get(('M', 'operand', lo, j)) and star(j) for j in range(lo + 1, n + 1))
+        return n == 0 or any(get(('M', 'operand', 0, k)) and star(k) for k in range(1, n + 1))
     raise Unsupported(K)
 
 
@@ -686,11 +745,14 @@ def check_matcher(ctx, rep, f, rule='R-MODEL.M3m'):
                         return asg[key]
                     need.append(key)
                     return False
+                # an iterative star matcher never asks for M(r*, suffix): those values are then the unfolding of the clause
+                get.consulted = {k for k in asg if k[0] == 'M' and k[1] == 'self'}
                 want_lo = _matcher_spec(K, n, get)
                 missing = sorted(set(need))
                 if missing:
                     def get2(key):
                         return asg[key] if key in asg else True
+                    get2.consulted = get.consulted
                     want_hi = _matcher_spec(K, n, get2)
                 else:
                     want_hi = want_lo
@@ -831,7 +893,8 @@ def check_gnfa_edges_model(ctx, rep, f, rule='R-MODEL.M4'):
     classes = {'Zero': lambda: ('Zero',), 'One': lambda: ('One',), 'Symbol': lambda a: ('Symbol', a), 'Iteration': lambda x: ('Iteration', x),
                'Sum': lambda x, y: ('Sum', x, y), 'Concat': lambda x, y: ('Concat', x, y),
                'GNFA': lambda Q, Sigma, delta, q_start, q_accept, *rest, **kw: Obj('GNFA', Q=Q, Sigma=Sigma, delta=delta, q_start=q_start, q_accept=q_accept)}
-    trans = {('p', 'a'): 'q', ('p', 'b'): 'q', ('p', 'c'): 'q', ('p', 'd'): 'p', ('q', 'a'): 'p', ('q', 'b'): 'p', ('q', 'c'): 'q', ('q', 'd'): 'q',
+    # q: its parallel transitions to p (a, c) and to itself (b, d) are interleaved in the order of the symbols
+    trans = {('p', 'a'): 'q', ('p', 'b'): 'q', ('p', 'c'): 'q', ('p', 'd'): 'p', ('q', 'a'): 'p', ('q', 'b'): 'q', ('q', 'c'): 'p', ('q', 'd'): 'q',
              ('start1', 'a'): 'start1', ('start1', 'b'): 'p', ('start1', 'c'): 'p', ('start1', 'd'): 'p'}
     D = Obj('DFA', Q={'p', 'q', 'start1'}, Sigma={'a', 'b', 'c', 'd'}, delta=dict(trans), q0='p', F={'q', 'start1'})
     try:
@@ -879,5 +942,5 @@ def check_gnfa_edges_model(ctx, rep, f, rule='R-MODEL.M4'):
     if bad:
         rep.violates(rule, f, 'def ' + f.name, bad)
     else:
-        rep.holds(rule, f, 'def ' + f.name, 'on a DFA with one, two and three parallel transitions between its states every edge of the generalised NFA carries the sum of the parallel symbols, start and accept edges carry 1, nothing else is added')
+        rep.holds(rule, f, 'def ' + f.name, 'on a DFA with one, two and three parallel transitions between its states (contiguous and interleaved in the order of the symbols) every edge of the generalised NFA carries the sum of the parallel symbols, start and accept edges carry 1, nothing else is added')
     return True
